@@ -70,3 +70,7 @@ register("C15", "exploration",
          "Generated residue definitions (all virtual-site kinds, angles, impropers, rings/stars/chains), name reuse with different content and build files with templates/volumes are run through the same pipeline gen_coords uses up to GenerateTemplates; checked: template sharing vs atom-name labelled graphs, exact atom names, centring, virtual sites against an independent implementation of the GROMACS constructions, every optimiser success verdict against independent measurements, user templates/volumes unchanged, positive sizes; plus a pure-function layer for construct_vs (value and rigid-motion equivariance).",
          "virtual_sitesn with function 1 only; resname-keyed build entries are not generated for names shared by two different residues; 40 s time-out inconclusive",
          "Hypothesis-generated inputs + reference-implementation and invariant oracles", "DESIGN.md 4/C15")
+register("C18", "exploration",
+         "Four generated case kinds on systems with repeated molecule names, each through a full gen_coords run: build files with overlapping/adjacent [ molecule ] ranges (also covering other names) compared with an independent name/index/resname/resid selection on the node attributes; -start specifications with omitted fields (start placement must hit the first matching residue, other molecules unchanged); -lig (ligand one minimum-image step from the host residue, hosts and molecule list restored); -split (fragments partition the atoms, new residue names, .gro order).",
+         "a [ molecule ] range covering other names must leave those molecules untouched; time-outs inconclusive",
+         "Hypothesis-generated inputs + independent selection oracle", "DESIGN.md 4/C18")
